@@ -419,13 +419,23 @@ def _flow(case, ctx, h5, labels):
         kw["key"] = jax.random.key(case["seed"])
         if case["options"] == "nondefault":
             kw.update(flow_layers=1, nn_width=8)
-    f = Flow(dims=d, data_transform=dtf, dtype=case["width"], **kw)
-    labels += ["flow:" + backend, "opts:" + case["options"], "trained" if case["trained"] else "untrained", str(case["width"])]
-    if case["trained"]:
-        f.fit(data, **({"n_epochs": 1, "batch_size": 40} if backend == "zuko" else {"max_epochs": 1, "batch_size": 40, "show_progress": False}))
-    elif case["affine"]:
-        pass
-    f.save(h5, "flow")
+    # a torch flow built without a dtype takes the process-wide default in force at that moment; the writing process may run with
+    # torch.set_default_dtype(float64) while the reading one does not
+    wide_default = backend == "zuko" and case["width"] is None and case["seed"] % 2 == 1
+    if wide_default:
+        import torch
+
+        torch.set_default_dtype(torch.float64)
+        labels.append("torch-default-float64-when-written")
+    try:
+        f = Flow(dims=d, data_transform=dtf, dtype=case["width"], **kw)
+        labels += ["flow:" + backend, "opts:" + case["options"], "trained" if case["trained"] else "untrained", str(case["width"])]
+        if case["trained"]:
+            f.fit(data, **({"n_epochs": 1, "batch_size": 40} if backend == "zuko" else {"max_epochs": 1, "batch_size": 40, "show_progress": False}))
+        f.save(h5, "flow")
+    finally:
+        if wide_default:
+            torch.set_default_dtype(torch.float32)
     r = Flow.load(h5, "flow")
     # the same object saved again (e.g. checkpoint file, then results file) must give an equally complete copy
     f.save(h5, "flow_again")
